@@ -95,7 +95,7 @@ void ares_free(void *p)
 
 int        vp_lock_depth;
 static int ev_mutex_depth, ev_locks, ev_unlocks;
-static int ch_then_ev, waits, wakes, wake_with_mutex, into_channel;
+static int ch_then_ev, waits, wakes, wake_with_mutex, into_channel, end_of_iteration_runs;
 static ares_channel_t      ch;
 static ares_event_thread_t E;
 static ares_event_t        sig_event;
@@ -150,9 +150,14 @@ struct timeval *ares_timeout(const ares_channel_t *c, struct timeval *maxtv, str
 }
 ares_status_t ares_process_fds(ares_channel_t *c, const ares_fd_events_t *events, size_t nevents, unsigned int flags)
 {
-  (void)events; (void)nevents; (void)flags;
+  (void)nevents; (void)flags;
   VP_ASSERT(c == &ch && ev_mutex_depth == 0, "ares_process_fds() is called without the event mutex");
   into_channel++;
+  if (events == NULL) {
+    end_of_iteration_runs++;
+    /* the thread is taken down (by ares_event_thread_destroy_int, under the mutex) while it is busy here */
+    if (waits == MAXITER || vp_bool()) E.isup = ARES_FALSE;
+  }
   ch_lock();
   channel_callbacks();
   ch_unlock();
@@ -182,7 +187,7 @@ static size_t      sys_wait(ares_event_thread_t *e, unsigned long timeout_ms)
   /* a socket became ready: its callback processes it on the channel */
   if (vp_bool()) ares_event_thread_process_fd(e, (ares_socket_t)5, NULL, ARES_EVENT_FLAG_READ);
   /* another thread (ares_event_thread_destroy_int) may take the thread down while we sleep */
-  if (vp_bool() || waits == MAXITER) E.isup = ARES_FALSE;
+  if (vp_bool()) E.isup = ARES_FALSE;
   return 0;
 }
 static const ares_event_sys_t sys = { "vp", sys_init, sys_destroy, sys_add, sys_del, sys_mod, sys_wait };
@@ -231,6 +236,7 @@ void harness(void)
   if (ch_then_ev) VP_WITNESS("event mutex taken while the channel lock is held");
   if (into_channel >= 2) VP_WITNESS("called into the channel");
   if (waits == MAXITER) VP_WITNESS("all iterations");
+  if (end_of_iteration_runs) VP_WITNESS("end-of-iteration processing ran");
 #elif OP == 1
   { ares_event_t *out = NULL; ares_status_t st;
     ares_socket_t fd = vp_bool() ? ARES_SOCKET_BAD : (ares_socket_t)5;
